@@ -38,6 +38,22 @@ CHECKS = {
         technique="Lean 4 proof by structural induction on type terms + exhaustive pairwise correspondence",
         ref="§5 C14",
     ),
+    "C19": dict(
+        text=("Proof (Lean 4): the three hand-written escape tables (scanner case list, parseChar, parseString — regenerated from the "
+              "source) agree with each other and with the specification's escape map for every character; all images are single bytes (the "
+              "fact parseString's in-place splice relies on); whenever the scanner delimits a text literal without diagnostic the parser's "
+              "unescaping reports none and yields exactly the denoted text (string_literal_consistent), and a reported escape is never a "
+              "literal; round trip for every text of any code points (text_literal_roundtrip) and every character; integer literals: "
+              "accepted iff decimal value < 2^63, denote that value, every value writable (digitsOf round trip), min Zahl not writable. "
+              "Tie: values stored in the AST by parser.Parse compared with the model for all text literals of <=3/4 symbols and all "
+              "character literals of <=3 symbols over a 12-symbol alphabet (quotes, backslash, escape/non-escape letters, newline, 2/3/4-"
+              "byte characters), integers around all powers of 2 and 10; rejected literals must be Faulty; a compiled program prints a "
+              "sample. PARTIAL: decimal-comma literals are not proved — each tested literal's bits are judged by the decidable "
+              "specification isNearestDouble (nearest, ties to even; exact integer arithmetic)."),
+        note=TB + "strconv.ParseInt/ParseFloat trusted. Fixed defect: scanner errors did not fail the module (7d23e9d).",
+        technique="Lean 4 proof (scanner/parser literal consistency, round trips) + regenerated escape tables + exhaustive short-literal correspondence",
+        ref="§5 C19",
+    ),
     "C20": dict(
         text=("Proof (Lean 4) over L1 models of ordered_map.go (binary search with eq-hit/less-direction, linear insert), alias_trie/trie.go "
               "(Insert/Contains/Search) and tokenEqual/tokenLess: under the contract Compat(eq,less) the sorted-slice map refines an "
